@@ -337,6 +337,12 @@ def _ssc_chart_items(draw, as_template):
     return items
 
 
+BLANK_SSC_DEFAULTS = {
+    "TIMESIGNATURES": "0.000=4=4", "TICKCOUNTS": "0.000=4", "COMBOS": "0.000=1", "SPEEDS": "0.000=1.000=0.000=0",
+    "SCROLLS": "0.000=1.000", "LABELS": "0.000=Song Start",
+}
+
+
 @st.composite
 def s_convert(draw, negative=False):
     # ---- source
@@ -358,10 +364,18 @@ def s_convert(draw, negative=False):
                 i = draw(st.integers(0, len(rows) - 1))
                 b, _, v = rows[i].partition("=")
                 rows[i] = b + "=-" + (v if Decimal(v) != 0 else "0.001")
+                if draw(st.integers(0, 2)) == 0:
+                    # the negative entry is followed by another entry on the very same beat (or a beat rounding to the
+                    # same tick): the list still includes a negative value
+                    rows.insert(i + 1, (b if draw(st.booleans()) else f"{Decimal(b) + Decimal('0.004'):.3f}") + "=" + (v if Decimal(v) != 0 else "0.001"))
                 timing[idx][1] = ",".join(rows)
     others = draw(st.lists(_free_pair(), max_size=6))
     if draw(st.sampled_from([False] * 4 + [True])):
         others.insert(0, [draw(st.sampled_from(SM_KEYS + SSC_ONLY_FREE)), None])  # key-only parameter
+    if draw(st.integers(0, 4)) == 0:
+        # SSC-only keys carried by the SM source with exactly the value a blank SSC simfile has for them
+        for k in draw(st.lists(st.sampled_from(sorted(BLANK_SSC_DEFAULTS)), min_size=1, max_size=3, unique=True)):
+            others.append([k, BLANK_SSC_DEFAULTS[k]])
     others = _dedup(others)
     tkeys = {p[0] for p in timing}
     others = [p for p in others if p[0] not in tkeys]
